@@ -67,7 +67,9 @@ func (s *state) rowsB() rows {
 	return out
 }
 
-func (s *state) text() string { return "a=" + s.rowsA(-1<<62, 1<<62).String() + " b=" + s.rowsB().String() }
+func (s *state) text() string {
+	return "a=" + s.rowsA(-1<<62, 1<<62).String() + " b=" + s.rowsB().String()
+}
 
 // sortRowsNumeric sorts single-column rows numerically (table b is compared as a set of tags).
 func sortRowsNumeric(r rows) rows {
@@ -119,8 +121,10 @@ type stmt struct {
 	Name   string
 }
 
-func (k kind) isDML() bool   { return k <= kDelA || k == kInsB || k == kInsBNull || k == kDelB }
-func (k kind) isQuery() bool { return k == kSelA || k == kCntA || k == kSelB || k == kCntB || k == kBadSel }
+func (k kind) isDML() bool { return k <= kDelA || k == kInsB || k == kInsBNull || k == kDelB }
+func (k kind) isQuery() bool {
+	return k == kSelA || k == kCntA || k == kSelB || k == kCntB || k == kBadSel
+}
 func (k kind) table() string {
 	switch k {
 	case kInsA, kUpsA, kUpdA, kDelA, kSelA, kCntA, kBadSel:
@@ -250,12 +254,12 @@ type savept struct {
 
 // view is a transaction's private state: a copy of the snapshot plus its own changes.
 type view struct {
-	st    *state
-	total int // cumulative affected rows
-	saves []savept
-	keep  bool // interpret ROLLBACK TO SAVEPOINT as the engine's known open defect does (counters restored, writes kept)
-	ro    bool
-	lastB int64 // tag of the last row inserted into b (0 = none)
+	st         *state
+	total      int // cumulative affected rows
+	saves      []savept
+	keep       bool // interpret ROLLBACK TO SAVEPOINT as the engine's known open defect does (counters restored, writes kept)
+	ro         bool
+	lastB      int64 // tag of the last row inserted into b (0 = none)
 	usedRollTo bool
 }
 
